@@ -27,6 +27,47 @@ SPAN_CORPUS = [
 ]
 
 
+_WORDS = ["def", "fin", "x", "y1", "some_name", "Foo", "if", "then", "else", "for", "in", "do", "while", "match", "class",
+          "type", "isa", "is", "and", "or", "not", "mod", "sqrt", "return", "pass", "raise", "handle", "when", "with", "as",
+          "from", "import", "forward", "pure", "vararg", "continue", "break", "_", "_and_", "_or_", "_xor_", "_not_",
+          "0", "7", "1234", "1.5", "20.25", "2E3", "10E22", "1.5E7",
+          ":=", "+=", "-=", "*=", "/=", "^=", "<<=", ">>=", "..", "..=", "::", "::=", "+", "-", "*", "/", "//", "^",
+          "<<", ">>", ">", ">=", "<", "<=", "=", "!=", "(", ")", "[", "]", "{", "}", "|", "->", "=>", "?", ".", ",", ":",
+          '""', '"abc"', '"a b  c"', '"{x}"', '"v: {x + 1} and {y1}"', '"\\n esc \\""', '"""doc"""', '"""a doc string"""']
+
+
+def _random_source(rnd):
+    """random token soup with 4-aligned indentation, random spacing, blank lines, comments, multi-line strings"""
+    lines, depth = [], 0
+    nl = "\r\n" if rnd.random() < 0.15 else "\n"
+    for _ in range(rnd.randint(1, 12)):
+        r = rnd.random()
+        if r < 0.12:
+            lines.append(" " * rnd.choice([0, 0, 2, 4, 7]))          # blank / whitespace-only line
+            continue
+        depth = max(0, min(4, depth + rnd.choice([-2, -1, 0, 0, 0, 1])))
+        if r < 0.22:
+            lines.append(" " * (4 * depth) + "#" + rnd.choice(["", " note", " a + b # nested", "{"]))
+            continue
+        toks = []
+        for _ in range(rnd.randint(1, 8)):
+            w = rnd.choice(_WORDS)
+            if rnd.random() < 0.06:
+                w = '"line one' + nl + rnd.choice(["", "two", "  three "]) + '"'     # multi-line string
+            elif rnd.random() < 0.04:
+                w = '"""multi' + nl + " " * (4 * depth) + "line doc" + nl + " " * (4 * depth) + '"""'
+            toks.append(w)
+        line = " " * (4 * depth)
+        for k, w in enumerate(toks):
+            line += w + (" " * rnd.choice([1, 1, 1, 2, 3]) if k + 1 < len(toks) else "")
+        if rnd.random() < 0.2:
+            line += " " * rnd.randint(0, 3) + "# trailing"
+        if rnd.random() < 0.15:
+            line += " " * rnd.randint(1, 3)
+        lines.append(line)
+    return nl.join(lines) + (nl if rnd.random() < 0.7 else "")
+
+
 def _load_findings(pid):
     p = os.path.join(VERIF, "known_findings.json")
     with open(p) as f:
@@ -70,6 +111,43 @@ def lex_bounded(pid, cfg, results, tier, seed):
                 "message": "span oracle fails on a corpus input",
                 "rendered": "input: %r\n%s" % (src, "\n".join(fl[:10])), "case": {"kind": "spans", "input": src}}))
     out["info"]["runs"].append({"check": "spans", "bound": "%d fixed inputs" % len(SPAN_CORPUS), "failing_inputs": bad})
+    # 2b. thorough tier: seeded random exploration with the same oracle (exploration, NOT proof)
+    if tier == "thorough":
+        import random, shutil
+        rnd = random.Random(seed)
+        d = os.path.join(VERIF, "build", "spans-random")
+        shutil.rmtree(d, ignore_errors=True)
+        os.makedirs(d)
+        n = 400
+        srcs = {}
+        for i in range(n):
+            src = _random_source(rnd)
+            name = "r%04d.mamba" % i
+            srcs[name] = src
+            with open(os.path.join(d, name), "w", newline="") as f:
+                f.write(src)
+        rc, txt = replay.call(["spansdir", d], timeout=600)
+        cur, fails, lexerr, accepted = None, {}, 0, 0
+        for l in (txt or "").splitlines():
+            if l.startswith("FILE|"):
+                cur = l[5:]
+            elif l.startswith("SPANFAIL|") or l.startswith("PANIC|"):
+                fails.setdefault(cur, []).append(l)
+            elif l.startswith("LEXERR|"):
+                lexerr += 1
+            elif l.startswith("SPANS|"):
+                accepted += 1
+        out["info"]["runs"].append({"check": "random spans (exploration)", "seed": seed, "inputs": n, "accepted_by_lexer": accepted,
+                                    "lex_errors": lexerr, "failing_inputs": len(fails),
+                                    "sample_input": srcs["r0000.mamba"][:200]})
+        if rc is None:
+            out["undecided"].append("random spans did not run: " + (txt or "")[-300:])
+        for name, fl in sorted(fails.items())[:5]:
+            out["violations"].append(({"unit": "LEX-BOUNDED"}, {
+                "obligation": "LEX-BOUNDED::spans::random_seed%d_%s" % (seed, name), "kind": "bounded", "fn": "tokenize",
+                "message": "span oracle fails on a generated input",
+                "rendered": "input: %r\n%s" % (srcs[name], "\n".join(fl[:10])), "case": {"kind": "spans", "input": srcs[name]}}))
+        shutil.rmtree(d, ignore_errors=True)
     # 3. known-finding witnesses
     for ent in _load_findings(pid):
         w = ent.get("witness") or {}
